@@ -4602,7 +4602,8 @@ impl BytecodeVM {
                     this_value: this,
                     args,
                     return_register: dst,
-                    new_target: JsValue::Undefined,
+                    // new.target stays the class being instantiated
+                    new_target: self.new_target.clone(),
                     is_super_call: true, // This is a super() call
                     guard,
                 })
@@ -4639,7 +4640,8 @@ impl BytecodeVM {
                     this_value: this,
                     args,
                     return_register: dst,
-                    new_target: JsValue::Undefined,
+                    // new.target stays the class being instantiated
+                    new_target: self.new_target.clone(),
                     is_super_call: true, // This is a super() call
                     guard,
                 })
@@ -5812,11 +5814,16 @@ impl BytecodeVM {
                     JsError::internal_error("Invalid private method name constant")
                 })?;
 
-                // Get new.target (the class constructor)
-                let JsValue::Object(new_target) = &self.new_target else {
-                    return Err(JsError::internal_error(
-                        "InstallPrivateMethod requires new.target to be an object",
-                    ));
+                // The class whose constructor is running (new.target is the class being
+                // instantiated, which may be a subclass)
+                let new_target = match (&self.current_constructor, &self.new_target) {
+                    (Some(ctor), _) => ctor.cheap_clone(),
+                    (None, JsValue::Object(new_target)) => new_target.cheap_clone(),
+                    _ => {
+                        return Err(JsError::internal_error(
+                            "InstallPrivateMethod requires a running constructor",
+                        ));
+                    }
                 };
 
                 // Get __private_methods__ from new.target
